@@ -617,12 +617,11 @@ def finish(merged, tier):
 def replay(w):
     r = R()
     if w["kind"] == "sharedpair":
-        x = run_shared_pair(list(w["schedule"]), w["op"], w["iface"])
-        res = x.obs["results"]
-        lines = res[1] if isinstance(res[1], list) else []
-        flat = [(k.decode("latin-1") if isinstance(k, bytes) else k, v.decode("latin-1") if isinstance(v, bytes) else v) for k, v in lines]
-        hit = bool(x.obs["stuck"]) or res[0] != "refused" or not isinstance(res[1], list) or any(bad_chars(k) or bad_chars(v) for k, v in flat)
-        return hit, {"results": repr(res)[:300], "trace": x.obs["trace"][-20:]}
+        # (the schedule belongs to the tree it was found on: the pair is explored again rather than one schedule re-run)
+        rr = R()
+        shared_pairs(rr, "quick")
+        hits = {k: v for k, v in rr.viol.items() if v[1].get("iface") == w["iface"] and v[1].get("op") == w["op"]}
+        return bool(hits), {"violations": sorted(hits), "texts": [v[2][:200] for v in hits.values()]}
     if w["kind"] == "coldstart":
         from ..core import fresh
         rr = fresh.call(__name__, ("coldstart-run",), "quick")
